@@ -145,6 +145,7 @@ theorem nodeStep_balOut {env a nd child r} (h : nodeStep env a nd child = some r
 @[simp] theorem closeIn_failed (c : Nd) : (closeIn c).failed = c.failed := by unfold closeIn; split <;> rfl
 @[simp] theorem closeIn_done (c : Nd) : (closeIn c).done = c.done := by unfold closeIn; split <;> rfl
 @[simp] theorem closeIn_fwdDead (c : Nd) : (closeIn c).fwdDead = c.fwdDead := by unfold closeIn; split <;> rfl
+@[simp] theorem closeIn_owed (c : Nd) : (closeIn c).owed = c.owed := by unfold closeIn; split <;> rfl
 @[simp] theorem closeIn_panicked (c : Nd) : (closeIn c).panicked = c.panicked := by unfold closeIn; split <;> rfl
 theorem closeIn_inClosed (c : Nd) : (closeIn c).inClosed = (c.inClosed || !c.inAborted) := by
   unfold closeIn; split <;> simp_all
